@@ -459,7 +459,7 @@ PROPS["C20"] = dict(
         dict(pkg="./pkg/cgroup", run="^VerifC20_V1ConcurrentSubNew$", replay="model", preempt=2, reach=["both-done"]),
         dict(pkg="./pkg/cgroup", run="^VerifC20_Readers$", replay="model", preempt=0, timeout=900, reach=["cpu-valid", "cpu-malformed", "cpu-missing-field", "mem-valid", "missing-file"]),
         dict(pkg="./pkg/cgroup", run="^VerifC20_Writers$", replay="model", preempt=0, reach=["addproc", "memlimit", "proclimit"]),
-        dict(pkg="./pkg/cgroup", run="^VerifC20_V1Lifecycle$", replay="model", preempt=0, reach=["created"]),
+        dict(pkg="./pkg/cgroup", run="^VerifC20_V1Lifecycle$", replay="model", preempt=0, reach=["created", "new-failed"]),
         dict(pkg="./pkg/cgroup", run="^VerifC20_AddProcMany$", replay="model", preempt=0, timeout=900, reach=["two-pids"]),
     ],
 )
